@@ -128,6 +128,9 @@ func (c *Ctx) Account(ex *Exec) {
 	if c.OptBool("verbose") {
 		if ex.Panic != nil {
 			fmt.Fprintf(os.Stderr, "PANIC %s: %s\n", ex.Panic.Key(), truncate(ex.Panic.Value, 200))
+			if c.OptBool("stacks") {
+				fmt.Fprintln(os.Stderr, ex.Panic.Stack)
+			}
 		} else if ex.Err != nil {
 			fmt.Fprintf(os.Stderr, "ERR %s\n", truncate(ex.Err.Error(), 300))
 		}
